@@ -93,6 +93,33 @@ def SExpr.evalF : SExpr → List Float → Float
       if v < 0 then 0 else if v == 0 then z.evalF ρ else 1
   | .ifgt a b t e, ρ => if a.evalF ρ > b.evalF ρ then t.evalF ρ else e.evalF ρ
 
+
+/-! ## `safe_power` (finding C01-safe_power-jacobian)
+
+`functions.safe_power(power, zero_val, tol, var)` (var 1 = power, var 2 = zero_val, var 3 = tol).  At the pinned
+commit the Jacobian factor is computed from the already powered values, `power * (x**power)**(power-1)`, which is
+the derivative only for power = 1.  The property needs `power * x**(power-1)` where the power is taken and 0
+where the constant `zero_val` is assigned; that rule (what the translator produces from the repaired source,
+`fixes/C01-safe-power-jacobian.diff`) is what the theorems and the driver use.  `Props.safe_power_generated_known`
+checks that the rule generated from the current source is one of the two. -/
+
+def safePowerVal : SExpr :=
+  (.ifgt (.un .abs (.var 0)) (.var 3) (.pow (.var 0) (.var 1)) (.mul (.const (1 : Rat)) (.var 2)))
+
+def safePowerFixed : Rule :=
+  { name := "safe_power",
+    val := safePowerVal,
+    dself := (.ifgt (.un .abs (.var 0)) (.var 3) (.mul (.var 1) (.pow (.var 0) (.sub (.var 1) (.const (1 : Rat))))) (.const (0 : Rat))),
+    dother := none,
+    plain := some safePowerVal }
+
+def safePowerAsFound : Rule :=
+  { name := "safe_power",
+    val := safePowerVal,
+    dself := (.mul (.var 1) (.pow safePowerVal (.sub (.var 1) (.const (1 : Rat))))),
+    dother := none,
+    plain := some safePowerVal }
+
 /-! ## AD programs over Float -/
 
 /-- value vector and dense Jacobian (one row per value) -/
